@@ -55,9 +55,10 @@ def _lock():
     return f
 
 
-def lake_build(targets, timeout=3000):
-    """returns (ok, log). Serialised with flock: several checks may run in parallel."""
-    lk = _lock()
+def lake_build(targets, timeout=3000, locked=False):
+    """returns (ok, log, seconds). Serialised with flock: several checks may run in parallel
+    (`locked=True`: the caller already holds the lock)."""
+    lk = None if locked else _lock()
     try:
         t0 = time.time()
         p = subprocess.run(
@@ -66,7 +67,8 @@ def lake_build(targets, timeout=3000):
         log = p.stdout + p.stderr
         return p.returncode == 0, log, time.time() - t0
     finally:
-        lk.close()
+        if lk is not None:
+            lk.close()
 
 
 def strip_comments(src: str) -> str:
@@ -354,6 +356,11 @@ class Ctx:
         self.known_hits = {}
         self.notes = []
         self.thorough = tier == "thorough"
+        self.exhaustive = False
+        try:
+            self._listed = {e.get("id") for e in known_findings(prop)}
+        except Exception:  # noqa: BLE001
+            self._listed = set()
 
     def count(self, key, n=1):
         self.hist[key] = self.hist.get(key, 0) + n
@@ -375,8 +382,7 @@ class Ctx:
     def known(self, finding_id, what, case=None):
         """a failing input that matches the signature of a finding LISTED in known_findings.json
         (status known). If the id is not listed there, it is an ordinary violation."""
-        listed = {e.get("id") for e in known_findings(self.prop)}
-        if finding_id in listed:
+        if finding_id in self._listed:
             self.known_hits.setdefault(finding_id, what)
         else:
             self.fail(f"unlisted finding {finding_id}: {what}", case)
@@ -398,7 +404,7 @@ def write_evidence(prop, payload):
 
 
 def run_check(prop, *, module, driver_targets, correspondence, translate=True, level="proof",
-              trusted=None, assumptions=None, rule="", search=None):
+              trusted=None, assumptions=None, rule="", search=None, extra_translate=None):
     """Flow of DESIGN §3.3. `correspondence(ctx)` runs implementation and model on generated
     inputs and records spec failures / disagreements in ctx. `search(ctx)` (default: the
     correspondence at thorough size) is the failing-input search used when a proof obligation or
@@ -410,34 +416,37 @@ def run_check(prop, *, module, driver_targets, correspondence, translate=True, l
     t0 = time.time()
     ctx = Ctx(prop, tier, seed)
     try:
-        # 1. translator: regenerate the tables from /repo's current source
+        # 1.-3. under ONE lock (several checks may run in parallel and share lean/): translator
+        # (tables regenerated from /repo's current source), build of model + driver, build of the
+        # property file, axiom audit, and (thorough) the independent leanchecker re-check.
         gen_note = None
-        if translate:
-            from translate import regenerate
-            gen_note = regenerate()
-        # 2. build model + driver, then the property file
-        ok_drv, log_drv, _ = lake_build(driver_targets)
-        if not ok_drv:
-            raise Infra("model/driver build failed:\n" + log_drv[-4000:])
-        ok_prop, log_prop, build_s = lake_build([module])
-        theorems, bad_axioms, forbidden = [], [], []
-        if ok_prop:
-            theorems = audit(module)
-            bad_axioms = [(t, [a for a in axs if a not in ALLOWED_AXIOMS]) for t, axs in theorems]
-            bad_axioms = [(t, a) for t, a in bad_axioms if a]
-            forbidden = grep_forbidden(module)
-        opens = open_statements(module)
-        if ctx.thorough and ok_prop:
-            lk = _lock()
-            try:
+        lk = _lock()
+        try:
+            if translate:
+                from translate import regenerate
+                gen_note = regenerate()
+            if extra_translate is not None:
+                extra_translate()
+            ok_drv, log_drv, _ = lake_build(driver_targets, locked=True)
+            if not ok_drv:
+                raise Infra("model/driver build failed:\n" + log_drv[-4000:])
+            ok_prop, log_prop, build_s = lake_build([module], locked=True)
+            theorems, bad_axioms, forbidden = [], [], []
+            if ok_prop:
+                theorems = audit(module)
+                bad_axioms = [(t, [a for a in axs if a not in ALLOWED_AXIOMS]) for t, axs in theorems]
+                bad_axioms = [(t, a) for t, a in bad_axioms if a]
+                forbidden = grep_forbidden(module)
+            opens = open_statements(module)
+            if ctx.thorough and ok_prop:
                 p = subprocess.run(["lake", "env", "leanchecker", module], cwd=LEAN, capture_output=True,
                                    text=True, timeout=3000)
-            finally:
-                lk.close()
-            ctx.notes.append(f"leanchecker {module}: exit {p.returncode}")
-            if p.returncode != 0:
-                ok_prop = False
-                log_prop += "\nleanchecker:\n" + p.stdout[-2000:] + p.stderr[-2000:]
+                ctx.notes.append(f"leanchecker {module}: exit {p.returncode}")
+                if p.returncode != 0:
+                    ok_prop = False
+                    log_prop += "\nleanchecker:\n" + p.stdout[-2000:] + p.stderr[-2000:]
+        finally:
+            lk.close()
         proof_ok = ok_prop and not bad_axioms and not forbidden
         # 3. correspondence
         correspondence(ctx)
@@ -510,7 +519,7 @@ def run_check(prop, *, module, driver_targets, correspondence, translate=True, l
             "generated_tables": gen_note,
             "failing_input_search_ran": searched,
             "notes": ctx.notes,
-            "exhaustive": False,
+            "exhaustive": bool(getattr(ctx, "exhaustive", False)),
         }
         write_evidence(prop, {
             "property_id": prop, "tier": tier, "seed": seed, "level": level,
